@@ -21,6 +21,7 @@ from chameleon.exc import RenderError
 from chameleon.exc import TemplateError
 from chameleon.loader import MemoryLoader
 from chameleon.loader import ModuleLoader
+from chameleon.loader import _verif_point
 from chameleon.loader import import_package_resource
 from chameleon.nodes import Module
 from chameleon.utils import DebuggingOutputStream
@@ -214,7 +215,10 @@ class BaseTemplate:
         functions = init(*builtins)
 
         for name, function in functions.items():
+            _verif_point('cook:setattr', self, name)
             setattr(self, "_" + name, function)
+
+        _verif_point('cook:installed', self)
 
         # Remove the render functions of an earlier version of the
         # template (e.g. of a macro that has since been removed).
@@ -409,6 +413,7 @@ class BaseTemplateFile(BaseTemplate):
                 self._cooked = False
 
         if self._cooked is False:
+            _verif_point('cook_check:read', self)
             body = self.read()
             log.debug("cooking %r (%d bytes)..." % (self.filename, len(body)))
             self.cook(body)
